@@ -154,6 +154,8 @@ def shards(tier, seed, scale=1.0):
         out.append({'name': 'allflags-%d' % s, 'kind': 'allflags', 'shard': s, 'of': A2, 'maxlen': allsub_len})
     for s in range(16):
         out.append({'name': 'hyp-%d' % s, 'kind': 'hyp', 'seed': seed * 1000 + s, 'n': max(10, int(hyp_n * scale))})
+    for s in range(4):
+        out.append({'name': 'fs-%d' % s, 'kind': 'fs', 'shard': s, 'of': 4})
     return out
 
 
@@ -165,6 +167,8 @@ def run_shard(desc):
         return run_allflags(desc)
     if k == 'hyp':
         return run_hyp(desc)
+    if k == 'fs':
+        return run_fs(desc)
     raise HarnessError(k)
 
 
@@ -239,8 +243,71 @@ def run_hyp(desc):
     return out
 
 
+FS_NAMES = ['~', '~root', '~nosuchuser', '*', '?', '[a]', '{a,b}', '!x', '-x', 'a|b', '@(a)', '!(a)', 'a b', 'a\\b', '(', ')', '[', ']', '{', '}', 'a', 'ab', 'x',
+            '~a', '-', '!', '**', 'a~', '[!a]', '+(a)', '.~', '~.']
+
+
+def run_fs(desc):
+    """File names made of metacharacters on a real directory: glob(escape(name)) returns exactly that name and
+    globmatch(REALPATH) accepts exactly that name, under every subset of the feature flags (GLOBTILDE only acts with REALPATH,
+    which is why this part touches the file system)."""
+    import os
+    out = Outcome()
+    out.exhaustive = True
+    s, S = desc['shard'], desc['of']
+    from .. import fscommon as FC
+    spec = [('f', n) for n in FS_NAMES if '/' not in n] + [('d', 'd~'), ('f', 'd~/~')]
+    with FC.built_tree(spec) as (root, _r):
+        on_disk = sorted(os.listdir(root))
+        idx = 0
+        for name in on_disk + ['d~/~']:
+            for i in range(4096):
+                idx += 1
+                if idx % S != s or (i % 7 and i not in (0, 4095, 64, 1 << 6 | 1)):
+                    continue
+                names = subset(i)
+                fl = flagval(names, 'gl', False) & ~(F.FORCEUNIX)
+                pat = G.escape(name)
+                case = {'s': name, 'pattern': pat, 'flags': names, 'mode': 'fs', 'win': False}
+                try:
+                    with util.watchdog(5), util.ScandirCounter(2000):
+                        res = G.glob(pat, flags=fl, root_dir=root)
+                        acc = G.globfilter(on_disk + ['d~/~', 'd~'], pat, flags=fl | G.REALPATH, root_dir=root)
+                except util.HarnessBudget:
+                    out.stats['watchdog_skipped'] += 1
+                    continue
+                except Exception as e:
+                    out.violation(dict(case, problem='exception', error=list(util.exc_bucket(e))), bucket=('fs-exc', type(e).__name__))
+                    continue
+                out.evaluations += 2
+                icase = 'IGNORECASE' in names
+                want = {n for n in on_disk + ['d~/~'] if (n.lower() == name.lower() if icase else n == name)}
+                if set(res) != want:
+                    out.violation(dict(case, problem='glob(escape(name)) does not return exactly the name', got=sorted(res)[:6], want=sorted(want)),
+                                  size=len(name) * 10 + len(names), bucket=('fs-glob', name))
+                    continue
+                if set(acc) != want:
+                    out.violation(dict(case, problem='globmatch(REALPATH) of escape(name) does not accept exactly the name', got=sorted(acc)[:6],
+                                       want=sorted(want)), size=len(name) * 10 + len(names), bucket=('fs-match', name))
+                    continue
+                out.nontrivial((name, tuple(names), 'fs'))
+    out.sample({'mode': 'fs', 'names': on_disk[:12], 'flag_subsets_per_name': 4096 // 7})
+    return out
+
+
 def replay(case):
     util.clear_caches()
+    if case.get('mode') == 'fs':
+        import os
+        from .. import fscommon as FC
+        spec = [('f', n) for n in FS_NAMES if '/' not in n] + [('d', 'd~'), ('f', 'd~/~')]
+        with FC.built_tree(spec) as (root, _r):
+            fl = flagval(case['flags'], 'gl', False) & ~(F.FORCEUNIX)
+            res = G.glob(case['pattern'], flags=fl, root_dir=root)
+            acc = G.globfilter(sorted(os.listdir(root)) + ['d~/~', 'd~'], case['pattern'], flags=fl | G.REALPATH, root_dir=root)
+            icase = 'IGNORECASE' in case['flags']
+            want = {n for n in sorted(os.listdir(root)) + ['d~/~'] if (n.lower() == case['s'].lower() if icase else n == case['s'])}
+            return set(res) == want and set(acc) == want, {'glob': res, 'matched': acc, 'want': sorted(want)}
     o = Outcome()
     check_string(case['s'], case['flags'], case['mode'], case['win'], o, 'replay', converse=case.get('converse', False))
     return (not o.violations), [dict(problem=v[2].get('problem'), name=v[2].get('name')) for v in o.violations]
